@@ -153,3 +153,9 @@ U("trim_both", ["C15", "C01"], "h_trim_both", ["C15/trim.c"], ["token.c", "char.
   callees={"token_trim_leading_whitespace": "contract (unit trim_leading)", "token_trim_trailing_whitespace": "contract (unit trim_trailing)"}, assumptions=_TRIM_ASSUME, cost=5)
 U("char_classes", ["C15", "C01"], "h_char_classes", ["C15/trim.c"], ["char.c", "token.c"], plain=True, lib=(), kind="proof", functions=["char_is_whitespace", "char_is_line_ending", "char_is_whitespace_or_line_ending", "char_is_punctuation", "char_is_alpha", "char_is_digit", "char_is_alphanumeric", "char_is_lower_case", "char_is_upper_case", "char_is_intraword", "char_is_whitespace_or_punctuation", "char_is_whitespace_or_line_ending_or_punctuation"],
   native={"repo": ["char.c", "token.c"]}, callees={}, cost=1, assumptions=["smart_char_type (non-const static table) holds its initialiser: no function in /repo/src writes it"])
+
+# ---- deindent_line (mmd.c): line stripping keeps spans and links coherent (seeded change C15-m2 is caught here)
+U("c15_deindent_line", ["C15", "C01"], "h_deindent", ["C15/deindent.c"], ["mmd.c", "token.c", "char.c"], plain=True, lib=(), kind="finite",
+  defines=["-DDISABLE_OBJECT_POOL"], cbmc_flags=["--unwind", "4", "--unwinding-assertions"],
+  functions=["deindent_line"], callees={"token_free": "body (DISABLE_OBJECT_POOL: the indent token is really released)"},
+  native=None, min_obligations=20, assumptions=[NOFAIL, "children of the line are contiguous (tokenizer, assumed); 1..3 children, all spans symbolic"])
